@@ -1,10 +1,485 @@
+// C24 — Stored procedures follow structured-program semantics.
+//
+// extract: semantic tables of sql/procedures (op codes, per-statement op shapes, goto placeholders,
+//
+//	the scan bounds and push/pop table of OpCode_Goto, error numbers) → lean/Gms/Generated/C24.lean
+//
+// run:     generated procedure bodies → (a) real procedures.Parse op list, (b) CREATE PROCEDURE + CALLs
+//
+//	on the real engine (OUT/INOUT user variables, trace table, error class); plus a model-free
+//	oracle: a direct Go interpretation of the body (the property's own statement).
 package main
 
-import "os"
+import (
+	"context"
+	"fmt"
+	"os"
+	"strings"
+	"time"
+
+	"github.com/dolthub/go-mysql-server/memory"
+	"github.com/dolthub/go-mysql-server/sql"
+	"github.com/dolthub/go-mysql-server/sql/procedures"
+	"github.com/dolthub/go-mysql-server/verifharness/hx"
+	"github.com/dolthub/go-mysql-server/verifharness/hx/eng"
+	ast "github.com/dolthub/vitess/go/vt/sqlparser"
+)
 
 func main() {
 	if len(os.Args) > 1 && os.Args[1] == "probe" {
 		probe()
 		return
 	}
+	hx.Main(extract, run)
+}
+
+// ---------------------------------------------------------------------------------------------
+// Program representation (mirrors lean/Gms/Model/ProcLang.lean through the s-expression syntax
+// documented in lean/Drivers/C24.lean).
+
+type Expr struct {
+	Op   string // lit null var add sub mul eq lt le and or not
+	N    int64
+	X    int
+	A, B *Expr
+}
+
+type Arm struct {
+	C    *Expr
+	Body []*Stmt
+}
+
+type Stmt struct {
+	Kind    string // block decl set emit if case while repeat loop leave iterate signal
+	Label   int    // -1 = none
+	X       int
+	Dflt    *int64
+	E       *Expr
+	Arms    []Arm
+	Else    []*Stmt
+	HasElse bool
+	Body    []*Stmt
+}
+
+func lit(n int64) *Expr       { return &Expr{Op: "lit", N: n} }
+func vr(x int) *Expr          { return &Expr{Op: "var", X: x} }
+func bin(op string, a, b *Expr) *Expr { return &Expr{Op: op, A: a, B: b} }
+
+func (e *Expr) Sexp() string {
+	switch e.Op {
+	case "lit":
+		return fmt.Sprintf("(lit %d)", e.N)
+	case "null":
+		return "null"
+	case "var":
+		return fmt.Sprintf("(var %d)", e.X)
+	case "not":
+		return "(not " + e.A.Sexp() + ")"
+	}
+	return "(" + e.Op + " " + e.A.Sexp() + " " + e.B.Sexp() + ")"
+}
+
+var sqlOp = map[string]string{"add": "+", "sub": "-", "mul": "*", "eq": "=", "lt": "<", "le": "<=", "and": "AND", "or": "OR"}
+
+func (e *Expr) SQL() string {
+	switch e.Op {
+	case "lit":
+		return fmt.Sprintf("%d", e.N)
+	case "null":
+		return "NULL"
+	case "var":
+		return fmt.Sprintf("v%d", e.X)
+	case "not":
+		return "(NOT " + e.A.SQL() + ")"
+	}
+	return "(" + e.A.SQL() + " " + sqlOp[e.Op] + " " + e.B.SQL() + ")"
+}
+
+func labSexp(l int) string {
+	if l < 0 {
+		return "-"
+	}
+	return fmt.Sprintf("%d", l)
+}
+func labPrefix(l int) string {
+	if l < 0 {
+		return ""
+	}
+	return fmt.Sprintf("l%d: ", l)
+}
+
+func stmtsSexp(ss []*Stmt) string {
+	parts := make([]string, len(ss))
+	for i, s := range ss {
+		parts[i] = s.Sexp()
+	}
+	return strings.Join(parts, " ")
+}
+
+func sp(s string) string {
+	if s == "" {
+		return ""
+	}
+	return " " + s
+}
+
+func (s *Stmt) Sexp() string {
+	switch s.Kind {
+	case "block":
+		return "(block " + labSexp(s.Label) + sp(stmtsSexp(s.Body)) + ")"
+	case "decl":
+		if s.Dflt == nil {
+			return fmt.Sprintf("(decl %d -)", s.X)
+		}
+		return fmt.Sprintf("(decl %d %d)", s.X, *s.Dflt)
+	case "set":
+		return fmt.Sprintf("(set %d %s)", s.X, s.E.Sexp())
+	case "emit":
+		return "(emit " + s.E.Sexp() + ")"
+	case "if", "case":
+		var b strings.Builder
+		if s.Kind == "if" {
+			b.WriteString("(if")
+		} else if s.E != nil {
+			b.WriteString("(case " + s.E.Sexp())
+		} else {
+			b.WriteString("(case -")
+		}
+		for _, a := range s.Arms {
+			b.WriteString(" (arm " + a.C.Sexp() + sp(stmtsSexp(a.Body)) + ")")
+		}
+		if s.HasElse || s.Kind == "if" {
+			b.WriteString(" (else" + sp(stmtsSexp(s.Else)) + ")")
+		} else {
+			b.WriteString(" (noelse)")
+		}
+		b.WriteString(")")
+		return b.String()
+	case "while":
+		return "(while " + labSexp(s.Label) + " " + s.E.Sexp() + sp(stmtsSexp(s.Body)) + ")"
+	case "repeat":
+		return "(repeat " + labSexp(s.Label) + " " + s.E.Sexp() + sp(stmtsSexp(s.Body)) + ")"
+	case "loop":
+		return "(loop " + labSexp(s.Label) + sp(stmtsSexp(s.Body)) + ")"
+	case "leave":
+		return fmt.Sprintf("(leave %d)", s.Label)
+	case "iterate":
+		return fmt.Sprintf("(iterate %d)", s.Label)
+	case "signal":
+		return "(signal)"
+	}
+	panic("kind " + s.Kind)
+}
+
+func stmtsSQL(ss []*Stmt) string {
+	var b strings.Builder
+	for _, s := range ss {
+		b.WriteString(s.SQL())
+		b.WriteString("; ")
+	}
+	return b.String()
+}
+
+func (s *Stmt) SQL() string {
+	switch s.Kind {
+	case "block":
+		return labPrefix(s.Label) + "BEGIN " + stmtsSQL(s.Body) + "END"
+	case "decl":
+		if s.Dflt == nil {
+			return fmt.Sprintf("DECLARE v%d INT", s.X)
+		}
+		return fmt.Sprintf("DECLARE v%d INT DEFAULT %d", s.X, *s.Dflt)
+	case "set":
+		return fmt.Sprintf("SET v%d = %s", s.X, s.E.SQL())
+	case "emit":
+		return "INSERT INTO lg(v) VALUES (" + s.E.SQL() + ")"
+	case "if":
+		var b strings.Builder
+		for i, a := range s.Arms {
+			if i == 0 {
+				b.WriteString("IF ")
+			} else {
+				b.WriteString("ELSEIF ")
+			}
+			b.WriteString(a.C.SQL() + " THEN " + stmtsSQL(a.Body))
+		}
+		if len(s.Else) > 0 {
+			b.WriteString("ELSE " + stmtsSQL(s.Else))
+		}
+		b.WriteString("END IF")
+		return b.String()
+	case "case":
+		var b strings.Builder
+		b.WriteString("CASE ")
+		if s.E != nil {
+			b.WriteString(s.E.SQL() + " ")
+		}
+		for _, a := range s.Arms {
+			b.WriteString("WHEN " + a.C.SQL() + " THEN " + stmtsSQL(a.Body))
+		}
+		if s.HasElse {
+			b.WriteString("ELSE " + stmtsSQL(s.Else))
+		}
+		b.WriteString("END CASE")
+		return b.String()
+	case "while":
+		return labPrefix(s.Label) + "WHILE " + s.E.SQL() + " DO " + stmtsSQL(s.Body) + "END WHILE"
+	case "repeat":
+		return labPrefix(s.Label) + "REPEAT " + stmtsSQL(s.Body) + "UNTIL " + s.E.SQL() + " END REPEAT"
+	case "loop":
+		return labPrefix(s.Label) + "LOOP " + stmtsSQL(s.Body) + "END LOOP"
+	case "leave":
+		return fmt.Sprintf("LEAVE l%d", s.Label)
+	case "iterate":
+		return fmt.Sprintf("ITERATE l%d", s.Label)
+	case "signal":
+		return "SIGNAL SQLSTATE '45000'"
+	}
+	panic("kind " + s.Kind)
+}
+
+type Param struct {
+	Name int
+	Mode string // in out inout
+}
+
+type Arg struct {
+	IsU bool
+	U   int
+	Lit *int64 // nil = NULL
+}
+
+type Case struct {
+	Params []Param
+	Body   *Stmt // outermost statement (a block)
+	Uvars  []*int64
+	Calls  [][]Arg
+}
+
+func valSexp(v *int64) string {
+	if v == nil {
+		return "N"
+	}
+	return fmt.Sprintf("%d", *v)
+}
+
+func (c *Case) Sexp() string {
+	var ps, us, cs []string
+	for _, p := range c.Params {
+		ps = append(ps, fmt.Sprintf("(%s %d)", p.Mode, p.Name))
+	}
+	for i, u := range c.Uvars {
+		us = append(us, fmt.Sprintf("(%d %s)", i, valSexp(u)))
+	}
+	for _, call := range c.Calls {
+		var as []string
+		for _, a := range call {
+			if a.IsU {
+				as = append(as, fmt.Sprintf("(u %d)", a.U))
+			} else {
+				as = append(as, "(lit "+valSexp(a.Lit)+")")
+			}
+		}
+		cs = append(cs, "("+strings.Join(as, " ")+")")
+	}
+	return "(proc (params" + sp(strings.Join(ps, " ")) + ") (body " + c.Body.Sexp() + ") (uvars" + sp(strings.Join(us, " ")) +
+		") (calls" + sp(strings.Join(cs, " ")) + "))"
+}
+
+func (c *Case) CreateSQL(name string) string {
+	var ps []string
+	for _, p := range c.Params {
+		ps = append(ps, fmt.Sprintf("%s v%d INT", strings.ToUpper(p.Mode), p.Name))
+	}
+	return "CREATE PROCEDURE " + name + "(" + strings.Join(ps, ", ") + ") " + c.Body.SQL()
+}
+
+func (c *Case) CallSQL(name string, call []Arg) string {
+	var as []string
+	for _, a := range call {
+		switch {
+		case a.IsU:
+			as = append(as, fmt.Sprintf("@u%d", a.U))
+		case a.Lit == nil:
+			as = append(as, "NULL")
+		default:
+			as = append(as, fmt.Sprintf("%d", *a.Lit))
+		}
+	}
+	return "CALL " + name + "(" + strings.Join(as, ", ") + ")"
+}
+
+// ---------------------------------------------------------------------------------------------
+// Real code, compile level: procedures.Parse of the parsed CREATE PROCEDURE body.
+
+var opNames = map[procedures.OpCode]string{
+	procedures.OpCode_Select: "Select", procedures.OpCode_Declare: "Declare", procedures.OpCode_Signal: "Signal",
+	procedures.OpCode_Open: "Open", procedures.OpCode_Fetch: "Fetch", procedures.OpCode_Close: "Close",
+	procedures.OpCode_Set: "Set", procedures.OpCode_Call: "Call", procedures.OpCode_If: "If", procedures.OpCode_Goto: "Goto",
+	procedures.OpCode_Execute: "Execute", procedures.OpCode_Exception: "Exception", procedures.OpCode_Return: "Return",
+	procedures.OpCode_ScopeBegin: "ScopeBegin", procedures.OpCode_ScopeEnd: "ScopeEnd",
+}
+
+func realOps(createSQL string) (string, error) {
+	stmt, err := ast.Parse(createSQL)
+	if err != nil {
+		return "", err
+	}
+	ddl, ok := stmt.(*ast.DDL)
+	if !ok || ddl.ProcedureSpec == nil {
+		return "", fmt.Errorf("not a CREATE PROCEDURE: %T", stmt)
+	}
+	ops, err := procedures.Parse(ddl.ProcedureSpec.Body)
+	if err != nil {
+		return "", err
+	}
+	parts := make([]string, len(ops))
+	for i, op := range ops {
+		t := op.Target
+		if t == "" {
+			t = "-"
+		}
+		parts[i] = fmt.Sprintf("%s/%d/%s", opNames[op.OpCode], op.Index, t)
+	}
+	return "ops=" + strings.Join(parts, " "), nil
+}
+
+// ---------------------------------------------------------------------------------------------
+// Real code, run level.
+
+type runner struct {
+	e    *eng.Eng
+	n    int
+	conn uint32
+}
+
+func newRunner() *runner {
+	e := eng.New("d")
+	e.MustExec(e.Ctx(), "create table lg (id int primary key auto_increment, v bigint)")
+	return &runner{e: e, conn: 5000}
+}
+
+func (r *runner) session() (sql.Session, func(context.Context) *sql.Context) {
+	r.conn++
+	bs := sql.NewBaseSessionWithClientServer("localhost:3306", sql.Client{Address: "localhost", User: "root"}, r.conn)
+	sess := memory.NewSession(bs, r.e.Pro)
+	return sess, func(c context.Context) *sql.Context {
+		ctx := sql.NewContext(c, sql.WithSession(sess))
+		ctx.SetCurrentDatabase("d")
+		return ctx
+	}
+}
+
+func cell(r *eng.Res, i, j int) string {
+	if r.Null[i][j] {
+		return "N"
+	}
+	return r.Rows[i][j]
+}
+
+// runCase executes the case on the real engine and returns the run-level observation.
+func (r *runner) runCase(c *Case) string {
+	r.n++
+	name := fmt.Sprintf("p%d", r.n)
+	_, mk := r.session()
+	bg := context.Background()
+	q := func(s string) *eng.Res { return r.e.Query(mk(bg), s) }
+	for i, u := range c.Uvars {
+		v := "NULL"
+		if u != nil {
+			v = fmt.Sprintf("%d", *u)
+		}
+		if res := q(fmt.Sprintf("SET @u%d = %s", i, v)); res.Class() != "ok" {
+			return "setup-" + res.Class()
+		}
+	}
+	if res := q(c.CreateSQL(name)); res.Class() != "ok" {
+		return "create-" + res.Class()
+	}
+	defer q("DROP PROCEDURE " + name)
+	var obs []string
+	for _, call := range c.Calls {
+		cctx, cancel := context.WithCancel(bg)
+		res := r.e.QueryTimeout(mk(cctx), c.CallSQL(name, call), 10*time.Second)
+		cancel()
+		class := res.Class()
+		var us []string
+		if len(c.Uvars) > 0 {
+			var sel []string
+			for i := range c.Uvars {
+				sel = append(sel, fmt.Sprintf("@u%d", i))
+			}
+			ur := q("SELECT " + strings.Join(sel, ", "))
+			if ur.Class() != "ok" || len(ur.Rows) != 1 {
+				us = append(us, "uvars-"+ur.Class())
+			} else {
+				for j := range c.Uvars {
+					us = append(us, cell(ur, 0, j))
+				}
+			}
+		}
+		lr := q("SELECT v FROM lg ORDER BY id")
+		var ls []string
+		if lr.Class() != "ok" {
+			ls = append(ls, "log-"+lr.Class())
+		}
+		for i := range lr.Rows {
+			ls = append(ls, cell(lr, i, 0))
+		}
+		q("DELETE FROM lg")
+		obs = append(obs, class+"|"+strings.Join(us, ",")+"|"+strings.Join(ls, ","))
+	}
+	return strings.Join(obs, " ; ")
+}
+
+// ---------------------------------------------------------------------------------------------
+
+func run(a hx.RunArgs) error {
+	out := hx.NewOut(a.OutDir)
+	defer out.Close()
+	out.Rule = "generated procedure bodies (nested BEGIN…END with DECLARE, SET, IF/ELSEIF/ELSE, CASE with and without ELSE, WHILE/REPEAT/LOOP with LEAVE/ITERATE, " +
+		"SIGNAL, a trace INSERT) with 0-3 IN/OUT/INOUT parameters and 1-2 CALLs in one session; observation = real procedures.Parse op list + " +
+		"CALL outcome class, user variables and trace rows; a case is non-trivial when the body has a loop or a LEAVE/ITERATE and at least one trace row or OUT value was produced"
+	r := hx.NewRand(a.Seed)
+	rn := newRunner()
+
+	one := func(c *Case, tag string) {
+		sexp := c.Sexp()
+		opsObs, err := realOps(c.CreateSQL("p"))
+		if err != nil {
+			opsObs = "ops-error:" + err.Error()
+		}
+		runObs := ""
+		if p := hx.Safe(func() { runObs = rn.runCase(c) }); p != "" {
+			runObs = "crash:" + p
+		}
+		feat := features(c.Body)
+		nontriv := (feat["loop"] || feat["jump"]) && strings.ContainsAny(runObs, "0123456789")
+		id := out.Case(sexp, opsObs+" ;; "+runObs, nontriv)
+		out.Stat("gen:" + tag)
+		for k := range feat {
+			out.Stat("feature:" + k)
+		}
+		for _, part := range strings.Split(runObs, " ; ") {
+			out.Stat("outcome:" + strings.SplitN(part, "|", 2)[0])
+		}
+		// model-free oracle: direct interpretation of the body
+		want, determined := interpretCase(c)
+		if determined && want != runObs {
+			out.OracleFail(id, "-", fmt.Sprintf("CALL gives %q, direct interpretation of the body gives %q: %s", runObs, want, c.CreateSQL("p")))
+		}
+	}
+
+	for _, c := range corpus() {
+		one(c, "corpus")
+	}
+	n := 1200
+	if a.Thorough {
+		n = 60000
+	}
+	for i := 0; i < n; i++ {
+		g := &gen{r: r}
+		one(g.genCase(), "random")
+	}
+	return nil
 }
